@@ -156,6 +156,49 @@ def _renumber_text(text, ren):
     return text
 
 
+BASELINE_PARAMS = os.path.join(os.path.dirname(os.path.abspath(__file__)), "tables", "param_baseline.json")
+_PARAM_BASE = None
+
+
+def _param_baseline():
+    global _PARAM_BASE
+    if _PARAM_BASE is None:
+        try:
+            with open(BASELINE_PARAMS) as f:
+                _PARAM_BASE = json.load(f)
+        except (OSError, ValueError):
+            _PARAM_BASE = {}
+    return _PARAM_BASE
+
+
+def _rename_params(d):
+    """Rules name parameters (`message`, `snd_una`, ...); a renamed parameter is not a behavioural change, so parameter
+    names are reset to the committed baseline wherever the function still has the same arity."""
+    base = _param_baseline().get(d["crate"] + ":" + d["crate_type"], {})
+    n = 0
+    for b in d["bodies"]:
+        names = base.get(b["key"])
+        if not names or len(names) != b["argc"]:
+            continue
+        for i, nm in enumerate(names):
+            loc = b["locals"][i + 1]
+            if loc[1] != nm and nm is not None and loc[1] is not None:
+                loc[1] = nm
+                n += 1
+    return n
+
+
+def write_param_baseline(facts_dir, files):
+    out = {}
+    for f in files:
+        with open(os.path.join(facts_dir, f)) as fh:
+            d = json.load(fh)
+        out[d["crate"] + ":" + d["crate_type"]] = {b["key"]: [b["locals"][i + 1][1] for i in range(b["argc"])] for b in d["bodies"] if b["argc"]}
+    with open(BASELINE_PARAMS, "w") as fh:
+        json.dump(out, fh, indent=0, sort_keys=True)
+    return out
+
+
 def write_impl_baseline(facts_dir, files):
     out = {}
     for f in files:
@@ -172,7 +215,7 @@ def _load_doc(path):
     import marshal
     mp = path + ".marshal"
     try:
-        if os.path.getmtime(mp) >= max(os.path.getmtime(path), os.path.getmtime(BASELINE_IMPLS) if os.path.exists(BASELINE_IMPLS) else 0):
+        if os.path.getmtime(mp) >= max([os.path.getmtime(path)] + [os.path.getmtime(x) for x in (BASELINE_IMPLS, BASELINE_PARAMS) if os.path.exists(x)]):
             with open(mp, "rb") as fh:
                 return marshal.load(fh)
     except (OSError, ValueError, EOFError, TypeError):
@@ -184,6 +227,7 @@ def _load_doc(path):
     if ren:
         d = json.loads(_renumber_text(text, ren))
         d["impl_renumbered"] = sorted("%s::{impl#%d}->%d" % (m, n, t) for (m, n), t in ren.items())
+    d["params_renamed"] = _rename_params(d)
     try:
         tmp = mp + ".%d" % os.getpid()
         with open(tmp, "wb") as fh:
